@@ -34,7 +34,7 @@ def drive(ctx):
         # days whose midnight / last second is touched first, then a sample of the others
         edge = [x for x in an if (x[1] % 86400) in (0,) or (x[2] % 86400) in (0,)]
         rest = [x for x in an if x not in edge]
-        sel = pick(rnd, edge, (3 if full else 1) if q else 16) + pick(rnd, rest, 1 if q else 8)
+        sel = pick(rnd, edge, (3 if full else 1) if q else 8) + pick(rnd, rest, 1 if q else 4)
         for (kind, ws, we, sec, b, a) in sel:
             # local readings: inside the anomaly, just outside, noon of that day, noon the day after
             day0 = ws - ws % 86400
